@@ -3,6 +3,7 @@ import FrappyProofs.Lemmas.Merge
 import FrappyProofs.Lemmas.WriteLoop
 import FrappyProofs.Lemmas.ConfigDsl
 import FrappyProofs.Lemmas.ConfigAttach
+import FrappyProofs.Lemmas.ConfigAttachClean
 import FrappyModel.Klass.ConfigDT
 import FrappyModel.Generated.C10
 /-
@@ -548,6 +549,50 @@ theorem bad_attachment_reported (ops : Ops DT Val) (nameOf : Val → Option Name
   · exact Or.inl (List.ne_nil_of_mem he)
   · right; intro hnil; rw [hnil] at h; cases h
 
+open Lemmas.ConfigAttach in
+/-- `attachments_accepted` — the converse of `bad_attachment_reported`: attachments without error never keep a node from
+starting.  If every module of the node is created, every attachment the configuration gives names a module of the node
+of the kind asked for, and no module is (transitively) attached to itself, then no module fails to initialise and the node
+starts — whatever the order of the modules, the depth of the attachments and the order in which a module asks for them. -/
+theorem attachments_accepted (ops : Ops DT Val) (nameOf : Val → Option Name) (mods : List (ModDecl DT Val))
+    (ok : NodeOk mods) (hcreated : (startNode ops nameOf mods).node.errors = [])
+    (hgood : ∀ m ∈ mods, ∀ d ∈ m.attached, ∀ t, attGiven nameOf m d = some t → targetOk mods d t = true)
+    (hacyc : acyclicB nameOf mods = true) :
+    (startNode ops nameOf mods).init.errors = [] ∧ (startNode ops nameOf mods).starts = true := by
+  have hnd : ((nodeCfgs mods).map (·.1)).Nodup := by
+    simpa [nodeCfgs, List.map_map, Function.comp_def] using ok.names
+  -- the instance registered under the name of a configured module is the one built from its configuration
+  have hinst : ∀ md ∈ mods, ∀ i, lookup md.name (createNode ops (nodeCfgs mods)).modules = some i →
+      applyConfig ops md.cls md.cfg = .ok i := by
+    intro md hmd i hl
+    rcases createNode_sound ops (nodeCfgs mods) ⟨[], []⟩ md.name i (lookup_mem _ _ _ hl) with h | ⟨m', hm', h1, h2⟩
+    · cases h
+    · obtain ⟨md', hmd', rfl⟩ := List.mem_map.1 hm'
+      have : md' = md := name_determines (fun x : ModDecl DT Val => x.name) mods ok.names md' hmd' md hmd h1
+      subst this; exact h2
+  let env : InitEnv DT Val := ⟨mods, createNode ops (nodeCfgs mods), nameOf⟩
+  have g : Good env := by
+    refine ⟨ok.names, fun md hmd => ?_, fun kv hkv => ?_, fun md hmd i hl d => ?_, hgood⟩
+    · have hmem : (md.name, md.cls, md.cfg) ∈ nodeCfgs mods :=
+        List.mem_map_of_mem (f := fun m => (m.name, m.cls, m.cfg)) hmd
+      have hc := errors_complete ops (nodeCfgs mods) ⟨[], []⟩ (fun _ _ => rfl) hnd _ hmem
+      cases happ : applyConfig ops md.cls md.cfg with
+      | error es =>
+        have := (hc.2 es happ).1
+        have hnil : (createNode ops (nodeCfgs mods)).errors = [] := hcreated
+        rw [show (nodeCfgs mods).foldl (createStep ops) ⟨[], []⟩ = createNode ops (nodeCfgs mods) from rfl, hnil] at this
+        cases this
+      | ok i => exact lookup_isSome_of_mem _ _ _ (hc.1 i happ)
+    · rcases createNode_sound ops (nodeCfgs mods) ⟨[], []⟩ kv.1 kv.2 hkv with h | ⟨m', hm', h1, _⟩
+      · cases h
+      · obtain ⟨md', hmd', rfl⟩ := List.mem_map.1 hm'
+        rw [← h1]; exact List.mem_map_of_mem (f := (·.name)) hmd'
+    · exact att_link ops nameOf md i (ok.classes md hmd) (hinst md hmd i hl) d
+  have hinit : (startNode ops nameOf mods).init.errors = [] := initNode_clean env g hacyc
+  refine ⟨hinit, ?_⟩
+  simp only [Started.starts, Bool.and_eq_true, List.isEmpty_iff]
+  exact ⟨hcreated, hinit⟩
+
 /-- the depth bound built into the model of `SecNode.get_module` (fuel: number of registered modules + 1) is never
 what ends an initialisation — for every node: the modules being initialised (`SecNode.initializing`) are distinct
 registered modules.  So `InitErr.fuel` is not an outcome, and the model is the unbounded recursion of the code. -/
@@ -888,6 +933,17 @@ example : (startNode toyOps toyName [exReg (some 1), { exReg (some 2) with name 
       exPlain "u" ["Module", "KA"]]).attachedOf "t" "out" = some "u" ∧
     (startNode toyOps toyName [exReg (some 1), { exReg (some 2) with name := "t", kinds := ["Module", "KA"] },
       exPlain "u" ["Module", "KA"]]).starts = true := by decide +kernel
+
+/-- the hypotheses of `attachments_accepted` are met by the chain `r → t → u` and by the node with `out='t'` -/
+example : acyclicB toyName [exReg (some 1), { exReg (some 2) with name := "t", kinds := ["Module", "KA"] },
+      exPlain "u" ["Module", "KA"]] = true ∧ acyclicB toyName (exNode (some 1)) = true ∧
+    (startNode toyOps toyName (exNode (some 1))).node.errors = [] ∧
+    targetOk (exNode (some 1)) ⟨"out", "KA"⟩ "t" = true := by decide +kernel
+
+/-- … and `acyclicB` does exclude something: a module which needs itself, two modules which need each other -/
+example : acyclicB toyName [{ exReg (some 4) with kinds := ["Module", "KA"] }] = false ∧
+    acyclicB toyName [exReg (some 1), { exReg (some 4) with name := "t", kinds := ["Module", "KA"] }] = false := by
+  decide +kernel
 
 /-- merging on a concrete example: three files, `b` defined in all of them, `c` only in the third -/
 example : mergeB (· == ·)
